@@ -17,7 +17,7 @@
      pos  cumulative position after the call (ReadLen / source position / base+n), -1 if not observable
    Error code and Thrift type id are emitted for C17; C08 compares accept/reject, extent,
    returned bytes and position only. *)
-From GV Require Import Lib.Bytes Lib.Res Corr.Val Gen.Consts Model.Binary Model.BufReader Model.Skip
+From GV Require Import Lib.Bytes Lib.Res Corr.Val Gen.Consts Model.Binary Model.BufReader Spec.Cursor Model.Skip
   Model.StreamSkip Model.SkipDecoders Spec.ThriftGrammar Spec.RefParse.
 Open Scope N_scope.
 
@@ -147,7 +147,11 @@ Section Run.
   (* budget D: height <= D-1 must be accepted exactly; height >= D+1 must be rejected; height = D
      is the boundary zone (either, but never a wrong extent) *)
   Definition D : nat := match depth with O => 64%nat | _ => depth end.
-  Definition zone_ok (ty : N) (base : N) (c : cres) : bool :=
+  (* [st]: the script contains max_empty consecutive empty reads, so a bufiox-backed skipper may
+     give up with io.ErrNoProgress (C04); that rejection (code 22, or 100+22 when wrapped by
+     BufferReader) is then allowed whatever the bytes are *)
+  Definition zone_ok (st : bool) (ty : N) (base : N) (c : cres) : bool :=
+    (st && match c with CErr e => (e =? e_noprogress)%Z || (e =? 100 + e_noprogress)%Z | _ => false end) ||
     match c with
     | CNot => true
     | CCrash => false
@@ -162,10 +166,10 @@ Section Run.
       | _ => true
       end
     end.
-  Definition calls_ok (cs : list cres) : bool :=
+  Definition calls_ok (st : bool) (cs : list cres) : bool :=
     match cs with
-    | [c1] => zone_ok t 0 c1
-    | [c1; c2] => zone_ok t 0 c1 && match c1 with COk n _ _ => zone_ok (Z.to_N t2) n c2 | _ => negb (match c2 with CCrash => true | _ => false end) end
+    | [c1] => zone_ok st t 0 c1
+    | [c1; c2] => zone_ok st t 0 c1 && match c1 with COk n _ _ => zone_ok st (Z.to_N t2) n c2 | _ => negb (match c2 with CCrash => true | _ => false end) end
     | _ => false
     end.
 End Run.
@@ -214,8 +218,9 @@ Definition check (c : cval) : verdict :=
       let m5 := m_rf ty b chs (vbool (I wd)) fin dp t2 in
       let a := calls_agree m1 i1 && calls_agree m2 i2 && calls_agree m3 i3 && calls_agree m4 i4
                && calls_agree m5 i5 in
-      let s := calls_ok ty b dp t2 i1 && calls_ok ty b dp t2 i2 && calls_ok ty b dp t2 i3
-               && calls_ok ty b dp t2 i4 && calls_ok ty b dp t2 i5 in
+      let stall := may_stall chs in
+      let s := calls_ok ty b dp t2 false i1 && calls_ok ty b dp t2 stall i2 && calls_ok ty b dp t2 stall i3
+               && calls_ok ty b dp t2 false i4 && calls_ok ty b dp t2 false i5 in
       let zone := match gparse ty b with
                   | Ok (_, h) => if Nat.ltb h (D dp) then 0 else if Nat.eqb h (D dp) then 1 else 2
                   | Err e => 2 + e
